@@ -17,7 +17,8 @@ RULE = ('real returns (answer-on-demand scenarios, requested form sets 1040 / 10
         'Non-trivial = a solved case in which at least one optional line or by-reference form is present and at least one '
         'catalogue-declared optional line or form is absent; distinct = (year, requested forms, present form set, number of lines) '
         'for real returns, hash of program for generated ones'
-        ' Also: the same return with drawn subsets of its inputs (always one that dozens of lines wait for) typed at the real command-line prompt; the written solution must hold every line of the direct solve.')
+        ' Also: the same return with drawn subsets of its inputs (always one that dozens of lines wait for) typed at the real command-line prompt; the written solution must hold every line of the direct solve.'
+        ' A successful solution must hold every required line of every participating form.')
 ASSUMPTIONS = ['the closure evaluator takes line objects from the solver\'s own form instances']
 KINDS = ['full', 'full', 'full', 'delete', 'gates']
 FORMSETS = [['1040'], ['1040'], ['1040', 'nc_d-400'], ['1040', 'nc_d-400'], ['nc_d-400'], ['1040_sb'], ['1040_s1'], ['1040_s3'], ['8959'],
